@@ -307,7 +307,9 @@ Proof.
       clear -Wes'. induction vs; constructor; cbn [map forallb iwf] in Wes'; apply andb_true_iff in Wes'; tauto.
     + inversion F; subst; exact Wd.
   - destruct (ifold via e) as [e1| | |] eqn:Ee; cbn [cbind] in F; try discriminate.
-    specialize (IH e1 W eq_refl). destruct e1; cbn [as_const] in F; try (inversion F; subst; exact IH).
+    specialize (IH e1 W eq_refl). destruct e1 as [z|n|o es|e0|e0|o a b]; cbn [as_const] in F.
+    2-6: inversion F; subst; exact IH.
+    generalize dependent minus_wraps. intros mw F. destruct mw; [inversion F; subst; cbn [iwf]; apply wrap64_in|].
     destruct (z =? i64_min) eqn:Ez; [discriminate|]. inversion F; subst. cbn [iwf] in *.
     apply in_i64_iff in IH. apply Z.eqb_neq in Ez. unfold i64_min in Ez. apply in_i64_iff. lia.
   - destruct (ifold via e) as [e1| | |] eqn:Ee; cbn [cbind] in F; try discriminate.
@@ -386,10 +388,14 @@ Section isound_gen.
     - destruct (ifold via e) as [e1| | |] eqn:Ee; cbn [cbind] in F; try discriminate.
       pose proof (IH W (G_neg _ HG) rho e1 Hrho Ee) as S.
       pose proof (ifold_wf via e e1 W Ee) as W1.
-      destruct e1; cbn [as_const] in F; try (inversion F; subst; cbn [ieval]; rewrite <- S; reflexivity).
-      destruct (z =? i64_min) eqn:Ez; [discriminate|]. inversion F; subst. cbn [ieval]. rewrite <- S. cbn [ieval obind].
-      f_equal. cbn [iwf] in W1. apply in_i64_iff in W1. apply Z.eqb_neq in Ez. unfold i64_min in Ez.
-      rewrite wrap64_id; [lia|]. apply in_i64_iff. lia.
+      destruct e1 as [z|n|o es|e0|e0|o a b]; cbn [as_const] in F.
+      2-6: inversion F; subst; cbn [ieval]; rewrite <- S; reflexivity.
+      (* the operand folded to a constant: both variants of IR::minus *)
+      generalize dependent minus_wraps. intros mw F. destruct mw.
+      + inversion F; subst. cbn [ieval]. rewrite <- S. reflexivity.
+      + destruct (z =? i64_min) eqn:Ez; [discriminate|]. inversion F; subst. cbn [ieval]. rewrite <- S. cbn [ieval obind].
+        f_equal. cbn [iwf] in W1. apply in_i64_iff in W1. apply Z.eqb_neq in Ez. unfold i64_min in Ez.
+        rewrite wrap64_id; [lia|]. apply in_i64_iff. lia.
     - destruct (ifold via e) as [e1| | |] eqn:Ee; cbn [cbind] in F; try discriminate.
       pose proof (IH W (G_bnot _ HG) rho e1 Hrho Ee) as S.
       destruct e1; cbn [as_const] in F; try (inversion F; subst; cbn [ieval]; rewrite <- S; reflexivity).
